@@ -51,10 +51,13 @@ def main():
         sys.exit(1)
     dst = os.path.join(ROOT, "seeded", sid)
     os.makedirs(dst, exist_ok=True)
-    shutil.copy(patch, os.path.join(dst, "patch.diff"))
-    shutil.copy(os.path.join(src, demo), os.path.join(dst, demo))
+    if os.path.realpath(src) != os.path.realpath(dst):
+        shutil.copy(patch, os.path.join(dst, "patch.diff"))
+        shutil.copy(os.path.join(src, demo), os.path.join(dst, demo))
     meta = {}
     mp = os.path.join(src, "meta.json")
+    if os.path.realpath(src) == os.path.realpath(dst) and os.path.exists(os.path.join(dst, "meta.json")):
+        mp = os.path.join(dst, "meta.json")
     if os.path.exists(mp):
         meta = json.load(open(mp))
     meta["property"] = prop
